@@ -21,7 +21,7 @@ def run(ctx, rep):
             if re.search(r'source::Source::read$|Source>::read$', name):
                 n += 1
                 rep.inst(rid, 'read-call:%s' % rt.short(fn.name))
-                if not re.search(r'LexerInternal<.*>>::read$|^<T as source::Source>::read$', fn.name):
+                if not re.search(r'LexerInternal<.*>>::read$|^<T as source::Source>::read$|^<str as source::Source>::read$', fn.name):
                     rep.viol(rid, 'extra-read:%s' % rt.short(fn.name), '%s reads the source (calls %s): reads outside the generated left-to-right walk' % (fn.name, name), rt.loc(fn, t['line']))
     for m in ('end_to_boundary', 'end', 'trivia', 'offset', 'is_prefix'):
         fn = rt.internal_fn(lg, m)
